@@ -160,8 +160,31 @@ def oracle(case, kd, s0):
                 if kind == 'dc':
                     if dv != 0:
                         bad.append('%s: inductor has dc voltage' % nm)
-                elif lv is not None and i0 is not None and dv != s * lv * cur - lv * i0:
-                    bad.append('%s: V = sL I - L i0 violated' % nm)
+                elif lv is not None and i0 is not None:
+                    # mutual inductance: V1 = sL1 I1 - L1 i01 + sM I2 - M i02, M = k sqrt(L1 L2)
+                    mut = 0
+                    okm = True
+                    for kl in case['netlist']:
+                        kt = kl.split()
+                        if kt[0].startswith('K') and nm in kt[1:3]:
+                            other = kt[2] if kt[1] == nm else kt[1]
+                            ol = [l for l in case['netlist'] if l.split()[0] == other]
+                            kv = parse_val(kt[3])
+                            lo = parse_val(ol[0].split()[3]) if ol else None
+                            io = I.get(other)
+                            i0o = parse_val(ol[0].split()[4]) if ol and len(ol[0].split()) > 4 and kind == 'ivp' else 0
+                            if None in (kv, lo, io, i0o):
+                                okm = False
+                                break
+                            import sympy as _sp
+                            m2 = _sp.sqrt(_sp.Rational(lv.numerator, lv.denominator) * _sp.Rational(lo.numerator, lo.denominator))
+                            if not m2.is_Rational:
+                                okm = False
+                                break
+                            M = kv * Fraction(int(m2.p), int(m2.q))
+                            mut += s * M * io - M * i0o
+                    if okm and dv != s * lv * cur - lv * i0 + mut:
+                        bad.append('%s: V = sL I - L i0 (+ mutual terms) violated' % nm)
             elif ty == 'E' and cls in ('E', 'VCVS'):
                 a = parse_val(toks[5])
                 ac = parse_val(toks[6]) if len(toks) > 6 else 0
@@ -362,7 +385,7 @@ def log(msg):
 def run(tier='quick', replay=None):
     res = core.Result(PID, tier)
     rng = random.Random(core.seed() * 7919 + 1)
-    core.ensure_theory(['FieldSec', 'Circuit', 'MNA'])
+    core.ensure_theory(['FieldSec', 'Circuit', 'MNA', 'CircuitLinear'])
     w = core.Work(PID)
     violations = []
     try:
@@ -414,13 +437,18 @@ def run(tier='quick', replay=None):
                 res.extra['coq_seconds'] = {f: round(r[2], 1) for f, r in allr.items()}
                 res.extra['unsupported_stamps'] = tr.unsupported
         # theory obligations (MNA.v, Circuit.v) are checked by the setup build; count them
-        for f in ('MNA.v', 'Circuit.v'):
+        for f in ('MNA.v', 'Circuit.v', 'CircuitLinear.v'):
             names = core.obligations_in(open(os.path.join(core.COQ_THEORY, f)).read())
             res.obligations += len(names)
             res.discharged += len(names)
 
         # correspondence + oracle
-        cases = CORPUS + gen_cases(rng, tier)
+        targeted = []
+        for name, f_, msg_ in res.failed_obl:
+            if name.startswith('stamp_sem_'):
+                for lines in netgen.targeted(rng, name[len('stamp_sem_'):]):
+                    targeted.append({'netlist': lines, 'tags': ['targeted', name], 's0': '3/2', 'methods': ['DM']})
+        cases = CORPUS + targeted + gen_cases(rng, tier)
         if replay and 'case' in replay:
             cases = [replay['case']]
         for c_ in cases:
@@ -495,7 +523,8 @@ def run(tier='quick', replay=None):
         # decide
         seen = set()
         for ce in res.counterexamples:
-            key = 'law:' + re.sub(r'[0-9/\-]+', '#', ce['law'].split(':')[-1].strip())[:60] + ':' + ce['law'].split(':')[0].rstrip('0123456789')
+            key = 'law:' + re.sub(r'[^A-Za-z]+', '_', re.sub(r'\(.*', '', ce['law'].split(':')[-1])).strip('_')[:40] + ':' + \
+                  re.sub(r'[^A-Za-z]+', '', ce['law'].split(':')[0])[:12] + ':' + ce['kind']
             if key in seen:
                 continue
             seen.add(key)
